@@ -235,7 +235,11 @@ def execute(plan, env):
     res = Result()
     tr = Trace(keep=env.keep_trace)
     if plan.get("generated"):
-        v = run_generated(plan, env, res, tr)
+        try:
+            v = run_generated(plan, env, res, tr)
+        except Exception as e:  # noqa  (every object handed to a generated serializer here is a valid one)
+            v = {"kind": "spurious-refusal", "signature": "C09|spurious-refusal|generated-serializer|sanitize=False",
+                 "detail": f"a generated serializer raised on a valid object: {type(e).__name__}: {e}", "step": 0}
         if v:
             res.violation = v
             res.digest = tr.digest()
